@@ -41,12 +41,17 @@ def gen_case(rng):
         # integral floats, and the same real file named several times under different extensions (one evaluation per
         # argument: what one writer does to its input must not reach the next argument's file)
         "fl.yaml": {"fmt": "yaml", "docs": [{"cpu": 4.0, "w": [1.0, 2.5, {"d": 2.0}], "n": 1, "s": "1.0"}]},
+        # every `$` written as an escape (no `$` byte in the file): plain data that still needs its `$$` undoubled, and a marker
+        "esc.json": {"fmt": "json", "docs": [{"price": "5$$", "$$key": "$$v", "n": 1}], "kw": {"escape_dollar": True}},
+        "esc2.toml": {"fmt": "toml", "docs": [{"price": "$$5"}], "kw": {"escape_dollar": True}},
+        "escbad.json": {"fmt": "json", "docs": [{"need": "$required"}], "kw": {"escape_dollar": True}},
+        "escbad2.yaml": {"fmt": "yaml", "docs": [{"need": "$required"}], "kw": {"escape_dollar": True}},
         "notes.txt": {"raw": "hello\n"},
         "x.ini": {"raw": "[s]\nk=v\n"},
     }
-    fileargs = ["a.yaml", "a.b.yaml", "svc.json", "t.toml", "a.b.json", "svc.yaml", "t.json", "a.toml", "./a.b.yaml", "a.b.yml"]
+    fileargs = ["a.yaml", "a.b.yaml", "svc.json", "t.toml", "a.b.json", "svc.yaml", "t.json", "a.toml", "./a.b.yaml", "a.b.yml", "esc.json", "esc.json", "esc2.toml", "esc.yaml"]
     failing = ["bad.yaml", "broken.json", "bad.json", "orphan.prod.yaml", "orphan.prod.json", "np.yaml", "np.toml", "tm.up.yaml", "tm.up.json",
-               "enc.yaml", "enc.json", "cyc.yaml", "rep.yaml"]
+               "enc.yaml", "enc.json", "cyc.yaml", "rep.yaml", "escbad.json", "escbad2.yaml", "escbad.json"]
     fileargs += ["tm.yaml", "tm.json"]
     samebase = ["x/svc.yaml", "y/svc.yaml", "x/svc.json", "y/svc.json", "y/svc.prod.yaml", "./x/svc.yaml", "y/../x/svc.yaml", "svc.yaml"]
     n = rng.randint(0, 8)
